@@ -204,9 +204,15 @@ def gen_program(rng, k=None):
 
 
 # ---- minimal past failures / known-finding witnesses: run first on every run -------------------
+# (id, history sources, program); the known-finding witnesses are read from known-findings.d/C02.json
+CORPUS = [
+    ("past:map-keys-after-history", ["$yq: 0; $zq: 0;"], P(src="a{b: map-keys((zq: 1, yq: 2)); c: inspect((zq: 1, yq: 2))}", origin="corpus-list")),
+    ("past:extend-after-history", [".w1{x:y} .yq{@extend .w1}"], P(src=".zq{a:b} .yq{c:d} .w1{@extend .zq; @extend .yq} .zq .yq{e:f}", origin="corpus-list")),
+]
+
 
 def _witnesses():
-    out = []
+    out = list(CORPUS)
     try:
         ks = json.load(open(os.path.join(os.path.dirname(__file__), "..", "..", "known-findings.d", "C02.json")))
     except (OSError, ValueError):
@@ -284,8 +290,11 @@ class Run:
                        f"{k[1][0] if k[1][0] in ('css', 'err') else 'err'} {hexs(k[1][0] + ':' + k[1][1])}" for k in keys])
         for k, o in zip(keys, outs):
             uniq[k] = o
-        for p, ctx, ref, other in self.pending:
+        for n_seen, (p, ctx, ref, other) in enumerate(self.pending):
             v = uniq[(ref, other)]
+            if n_seen % 1499 == 7:
+                self.ck.sample({"program": prog_text(p)[:300], "mode": ctx["mode"], "history_kind": ctx.get("history_kind"),
+                                "slot": ctx.get("slot"), "reference": list(ref)[1][:120], "same": v})
             self.ck.count((prog_text(p), p["options"], ctx.get("mode"), ctx.get("history"), ctx.get("slot")), True)
             self.ck.hist("mode:" + ctx["mode"])
             if v == "ok 1":
@@ -437,10 +446,10 @@ def load_programs(ck, tier):
                                                  p["input"])]
     if tier == "quick":
         rest = [p for p in progs if p not in interesting]
-        chosen = rng.sample(interesting, min(450, len(interesting))) + rng.sample(rest, 250)
+        chosen = rng.sample(interesting, min(280, len(interesting))) + rng.sample(rest, 120)
     else:
         chosen = progs
-    n_gen = 300 if tier == "quick" else 3000
+    n_gen = 160 if tier == "quick" else 3000
     gens = [gen_program(rng) for _ in range(n_gen)]
     return chosen, gens, len(cs), skipped
 
@@ -495,7 +504,7 @@ def run(tier, seed):
         for o in others:
             R.compare(p, {"mode": "witness", "history": hist, "witness_of": kid}, ref, o)
             differs = differs or o != ref
-        if not differs:
+        if not differs and not kid.startswith("past:"):
             ck.notes.append(f"known finding {kid}: witness no longer fails on this tree (entry is stale)")
     R.flush()
 
@@ -532,8 +541,9 @@ def run(tier, seed):
         ids = idents(prog_text(p))
         hs = [("rev-vars", [hist_vars(list(reversed(ids)))]),
               ("shuf-props+sorted-callables", [hist_props(rng.sample(ids, len(ids))), hist_callables(sorted(ids))]),
-              ("corpus3", None), ("self", None)]
+              ("corpus3", None)]
         if tier == "thorough":
+            hs.append(("self", None))
             hs.append(("sorted-vars", [hist_vars(sorted(ids))]))
             hs.append(("shuf-vars", [hist_vars(rng.sample(ids, len(ids)))]))
         for name, srcs in hs:
@@ -590,34 +600,37 @@ def run(tier, seed):
         R.flush()
         log(f"[C02] par{n_threads} done in {time.time() - t0:.1f}s")
 
-    # fresh processes (fresh hash seeds, counters at 0, empty interners)
+    # fresh processes (fresh hash seeds, counters at 0, empty interners).  One runner process per
+    # round; inside it 16 threads started together, each compiling a slice of the programs (the slice
+    # boundaries rotate with the round, so every program is also observed as the first compilation
+    # of a fresh thread of a fresh process in some rounds).
     n_proc = 20 if tier == "quick" else 200
-    subset = usable if tier == "thorough" else [i for i in usable if programs[i]["origin"].startswith("gen")] + \
-        rng.sample([i for i in usable if not programs[i]["origin"].startswith("gen")], min(250, len(usable)))
-    if tier == "thorough":
-        # 200 processes: every program in 20 of them, the generated ones (hash containers) in all 200
-        gen_only = [i for i in usable if programs[i]["origin"].startswith("gen")]
-    def one_process(sub):
-        one = RunnerPool(1)                     # exactly one fresh runner process; every program on its own fresh thread
-        n = len(sub)
-        ans = one.map([{"mode": "par", "lists": [[prog_job(programs[i])] for i in sub[o:o + 16]]} for o in range(0, n, 16)],
-                      timeout=240)
-        flat = []
-        for a, o in zip(ans, range(0, n, 16)):
-            if a.get("status") == "ok":
-                flat += [(rl[0] if rl else {"status": "lost"}) for rl in a["results"]]
-            else:
-                flat += [{"status": str(a.get("status"))}] * len(sub[o:o + 16])
-        return flat
+    gen_only = [i for i in usable if programs[i]["origin"].startswith("gen")]
+    others = [i for i in usable if not programs[i]["origin"].startswith("gen")]
+    subset = usable if tier == "thorough" else gen_only + rng.sample(others, min(150, len(others)))
+
+    def one_process(arg):
+        rnd, sub = arg
+        k = max(1, (len(sub) + 15) // 16)
+        rot = sub[(rnd * 3) % max(1, len(sub)):] + sub[:(rnd * 3) % max(1, len(sub))]
+        lists = [rot[o:o + k] for o in range(0, len(rot), k)]
+        a = RunnerPool(1).map([{"mode": "par", "lists": [[prog_job(programs[i]) for i in l] for l in lists]}], timeout=600)[0]
+        out = []
+        for t, l in enumerate(lists):
+            rl = a["results"][t] if a.get("status") == "ok" and t < len(a.get("results", [])) else None
+            for j, i in enumerate(l):
+                ans = rl[j] if rl is not None and j < len(rl) else {"status": "lost:" + str(a.get("status"))}
+                out.append((i, [t, j], [programs[x]["origin"] for x in l[:j]], [prog_job(programs[x]) for x in l[:j]], ans))
+        return out
 
     import concurrent.futures
     procs = 0
     rounds = [(rnd, subset if (tier == "quick" or rnd < 20) else gen_only) for rnd in range(n_proc)]
     with concurrent.futures.ThreadPoolExecutor(max_workers=8) as ex:
-        for (rnd, sub), flat in zip(rounds, ex.map(lambda rs: one_process(rs[1]), rounds)):
+        for (rnd, sub), out in zip(rounds, ex.map(one_process, rounds)):
             procs += 1
-            for i, a in zip(sub, flat):
-                R.compare(programs[i], {"mode": "process", "slot": rnd}, refs[i], observe(a))
+            for i, slot, horig, hj, a in out:
+                R.compare(programs[i], {"mode": "process", "slot": [rnd] + slot, "history": horig, "_hj": hj}, refs[i], observe(a))
             if rnd % 10 == 9:
                 R.flush()
     R.flush()
@@ -635,7 +648,7 @@ def run(tier, seed):
             ck.hist("known-class:" + t)
         if not f["tags"]:
             ck.hist("unclassified-difference:" + ctx["mode"])
-            if reported < 5 and hj and ctx["mode"] == "seq" and len(hj) > 1:
+            if reported < 5 and hj and len(hj) > 1:
                 for j in hj:                                    # shrink: a single prior compilation suffices?
                     r = pool.map([{"mode": "seq", "jobs": [j, prog_job(p)]}], timeout=40)[0]
                     if r.get("status") == "ok" and observe(r["results"][-1]) != f["reference"]:
